@@ -141,6 +141,9 @@ pub struct ContractState {
     pub finished: bool,
     /// a finish attempt failed: the object is dead but the documentation does not say how it reports that
     pub finish_failed: bool,
+    /// some accepted timestamp saturates the 64-bit tick counter: whether the finished file can state every
+    /// derived value (durations, start offsets) exactly is C16's question, and an error from finish is a legal answer
+    pub saturated_ts: bool,
     pub first_video_pts: Option<f64>,
     pub last_video_pts: Option<f64>,
     pub last_video_dts_ticks: Option<u64>,
@@ -568,6 +571,8 @@ impl ContractState {
                     Verdict::MustReject(vec![EV::AlreadyFinished])
                 } else if self.finish_failed {
                     Verdict::MustReject(vec![EV::AlreadyFinished, EV::Io])
+                } else if self.saturated_ts {
+                    Verdict::Either("finish after a timestamp that saturates the tick counter")
                 } else {
                     Verdict::MustAccept
                 }
@@ -617,6 +622,9 @@ impl ContractState {
         self.last_video_pts = Some(pts);
         self.last_video_dts_secs = Some(dts);
         let t = to_ticks(dts);
+        if t.saturated || to_ticks(pts).saturated {
+            self.saturated_ts = true;
+        }
         self.last_video_dts_ticks = Some(t.exact);
         self.last_video_dts_alt = t.alt;
         self.video_count += 1;
@@ -624,6 +632,9 @@ impl ContractState {
     fn note_audio(&mut self, pts: f64) {
         self.last_audio_pts = Some(pts);
         let t = to_ticks(pts);
+        if t.saturated {
+            self.saturated_ts = true;
+        }
         self.last_audio_ticks = Some(t.exact);
         self.last_audio_alt = t.alt;
         self.audio_count += 1;
